@@ -3,5 +3,5 @@ From Coq Require Import ExtrOcamlBasic.
 From OlaBase Require Import Bytes.
 From C12 Require Import Gen Model.
 Extraction Language OCaml.
-Extraction "model.ml" io_witness N.div_eucl init exec_op destroy dups sorted_lt accepted_ids
+Extraction "model.ml" io_witness N.div_eucl init exec_op destroy_run dups sorted_lt accepted_ids
   bad_data lost measure dv_of.
